@@ -22,6 +22,7 @@ ASAN_ENV = {"ASAN_OPTIONS": "detect_leaks=1:abort_on_error=0:exitcode=21", "LSAN
 PRIOS = [0, 1, 1, 5, 5, 5, 5, 31, 31, 17]
 TIMEOUTS = [(0, 0), (0, 500), (0, 500), (0, 500), (0, 1000), (0, 1000), (1, 0), (0, 999999), (0, 1500),
             (0, 1), (2, 500000), (0, 250000)]
+TIMEOUTS_D = [(0, 0), (0, 15625), (0, 15625), (0, 500000), (0, 250000), (1, 0), (0, 984375), (2, 500000), (0, 31250)]
 STEPS = [0, 0, 0, 1, 100, 499, 500, 501, 1000, 1000, 250000, 999999, 1500000, 3000000]
 
 
@@ -70,6 +71,10 @@ class Gen:
             t = r.choice(TIMEOUTS)
             if r.random() < 0.02:
                 t = r.choice([(2147483, 0), (2147482, 999999), (2147482, 1), (5000000, 7)])
+            if r.random() < 0.25:
+                # the double interface; fractions a double holds exactly (multiples of 1/64 s)
+                t = r.choice(TIMEOUTS_D)
+                return ["td", cb, t[0], t[1], var, 0]
             return ["tr", cb, t[0], t[1], var, 0]
         if k == "tx":
             return ["tx", var]
@@ -110,6 +115,55 @@ class Gen:
         step = r.choice([0, 0, 0, 1, 999, 1000, 353000, 647000, 1000000])
         clocks = [((base + i * step) // 1000000, (base + i * step) % 1000000) for i in range(12)]
         return render(prog, xs, polls, clocks)
+
+    def far_double_case(self):
+        """Timeouts of 2^31 s and more (next to ordinary ones) given to events_timer_register_double, and the
+        same values given to events_timer_register as a struct timeval; then the clock jumps to instants
+        between registration + 2^31 - 1 s and the deadlines (just before / at / just after each), and at
+        last past all of them, with the loop run at every instant: no callback before its registration
+        time + timeout, all of them in deadline order afterwards; some timers are reset in between."""
+        r = self.r
+        self.ctx.count("events.profile.far-double")
+        far = [(5, 250000), (0, 15625), (31536000, 0), (2147483646, 500000), (2147483647, 0), (2147483647, 15625),
+               (2147483648, 0), (2147483648, 750000), (4294967296, 500000), (10 ** 10, 0), (10 ** 10, 0),
+               (3 * 10 ** 9, 984375), (2 ** 40, 31250)]
+        us = lambda t: t[0] * 1000000 + t[1]
+        base = r.choice([0, 999999, 1000123456, 5000007, 86400 * 10 ** 6])
+        xs, timers, used = [], [], []
+        for v in range(r.randrange(1, 5)):
+            t = r.choice(far) if r.random() < 0.8 else (r.randrange(2 ** 31, 2 ** 35), 15625 * r.randrange(64))
+            kind = "td" if r.random() < 0.65 else "tr"
+            xs.append([kind, 0, t[0], t[1], v, 0])
+            timers.append(t)
+            used.append(v)
+            if r.random() < 0.35:                      # the same value through the other interface
+                xs.append(["tr" if kind == "td" else "td", 1, t[0], t[1], v + 8, 0])
+                timers.append(t)
+                used.append(v + 8)
+        nreads = len(timers)
+        s31 = 2147483647 * 1000000
+        cands = [s31 - 1, s31, s31 + 1, s31 + 3000000, s31 + 1000000]
+        for t in timers:
+            cands += [us(t) - 1000000, us(t) - 1, us(t), us(t) + 1]
+        instants = sorted(r.sample([c for c in cands if c > 0], r.randrange(2, 5)))
+        last = max(us(t) for t in timers) + 1000000
+        clocks = [base] * nreads
+        nruns = 0
+        for k, at in enumerate(instants):
+            if r.random() < 0.25:
+                xs.append(["ts", r.choice(used)])      # reset: one more reading, a new deadline
+                clocks.append(base + at)
+                last = max(last, at + max(us(t) for t in timers) + 1000000)
+            n = r.choice([1, 1, 2])
+            xs += [["run"]] * n
+            nruns += n
+            clocks += [base + at] * r.choice([2 * n, 2 * n, 2 * n + 1, 3 * n + 1])
+        n = len(timers) + 3
+        xs += [["run"]] * n
+        nruns += n
+        clocks += [base + last] * 8
+        polls = [["r", 0]] * (3 * nruns + 3 * len(timers) + 8)
+        return render([[([], 0)], [([], 0)]], xs, polls, [(c // 1000000, c % 1000000) for c in clocks])
 
     def many_timers_case(self):
         """8..40 timers with distinct deadlines registered in scrambled order, some cancelled or reset
@@ -336,7 +390,8 @@ def run_all(ctx, sub):
     cases = corpus_cases()
     ctx.count("events.corpus", len(cases))
     n = ctx.n(4000, 200000)
-    cases += [(g.far_case() if i % 25 == 7 else g.many_timers_case() if i % 25 == 13 else g.case()) for i in range(n)]
+    cases += [(g.far_case() if i % 25 == 7 else g.many_timers_case() if i % 25 == 13 else
+               g.far_double_case() if i % 25 == 19 else g.case()) for i in range(n)]
     impl, st = vlib.run_sharded(exe, cases, env=ASAN_ENV, timeout=1500)
     model, _ = vlib.run_sharded(mexe, cases, timeout=1500)
     traces = [l[3:] if l.startswith("ok ") else "" for l in impl]
@@ -462,8 +517,8 @@ def check_events_allocfail(ctx):
     n = ctx.n(1500, 40000) + len(structs)
     while len(structs) < n:
         prog, xs, polls, clocks = g.case_struct()
-        sites = [(xs, i) for i, o in enumerate(xs) if o[0] in ("ir", "nr", "tr")]
-        inner = [(ops, i) for scripts in prog for ops, _ in scripts for i, o in enumerate(ops) if o[0] in ("ir", "nr", "tr")]
+        sites = [(xs, i) for i, o in enumerate(xs) if o[0] in ("ir", "nr", "tr", "td")]
+        inner = [(ops, i) for scripts in prog for ops, _ in scripts for i, o in enumerate(ops) if o[0] in ("ir", "nr", "tr", "td")]
         if not sites and not inner:
             continue
         lst, i = r.choice(sites) if (sites and (not inner or r.random() < 0.6)) else r.choice(inner)
